@@ -50,6 +50,9 @@ def _zval_to_py(zv):
         return zv.as_long()
     if z3.is_rational_value(zv):
         return Fraction(zv.numerator_as_long(), zv.denominator_as_long())
+    if z3.is_fp_value(zv):
+        from .fp import to_float
+        return to_float(zv)
     if z3.is_algebraic_value(zv):
         a = zv.approx(20)
         return Fraction(a.numerator_as_long(), a.denominator_as_long())
@@ -99,7 +102,9 @@ def nice_model(c, extra=(), seed=0, budget_ms=4000):
 def model_jsonable(model):
     out = {}
     for k, v in model.items():
-        if isinstance(v, Fraction):
+        if isinstance(v, float):
+            out[k] = {"double": v.hex()}
+        elif isinstance(v, Fraction):
             out[k] = [v.numerator, v.denominator] if v.denominator != 1 else v.numerator
         else:
             out[k] = v
@@ -109,7 +114,10 @@ def model_jsonable(model):
 def model_from_json(d):
     out = {}
     for k, v in d.items():
-        out[k] = Fraction(v[0], v[1]) if isinstance(v, list) else v
+        if isinstance(v, dict) and "double" in v:
+            out[k] = float.fromhex(v["double"])
+        else:
+            out[k] = Fraction(v[0], v[1]) if isinstance(v, list) else v
     return out
 
 
